@@ -1,0 +1,19 @@
+//! Hooks for the external deterministic-simulation harness. Only compiled with `--cfg ldk_verif`;
+//! without that cfg nothing in this file exists and no behaviour changes.
+
+use core::time::Duration;
+use std::cell::Cell;
+
+thread_local! {
+	static NOW: Cell<Duration> = Cell::new(Duration::from_secs(1_700_000_000));
+}
+
+/// Sets the simulated wall clock (time since the unix epoch) for the current thread.
+pub fn set_now(now: Duration) {
+	NOW.with(|n| n.set(now));
+}
+
+/// Reads the simulated wall clock for the current thread.
+pub fn now() -> Duration {
+	NOW.with(|n| n.get())
+}
